@@ -9,5 +9,5 @@ Leaf = type(
     (zoo.Leaf,),
     {"__module__": __name__, "__qualname__": "Leaf", "__xpmid__": "xvmodels.zoo.leaf", "__annotations__": {"c": Constant[int]}, "c": 4},
 )
-for _n in ("LeafB", "Other", "Node", "Rec", "Gen", "GenLeaf", "Artifact", "Holder", "TaskBase", "TaskT", "TaskO", "Pre", "Init"):
+for _n in ("LeafB", "Other", "Named", "NamedChild", "Node", "Rec", "Gen", "GenLeaf", "Artifact", "Holder", "TaskBase", "TaskT", "TaskO", "Pre", "Init"):
     globals()[_n] = getattr(zoo, _n)
